@@ -180,6 +180,9 @@ func (m *MatchHTTP) handleHttp2WithPriorKnowledge(reader io.Reader, req *http.Re
 	}
 
 	framer := http2.NewFramer(io.Discard, reader)
+	// no frame can be larger than what matching is allowed to buffer; without a limit
+	// the framer allocates the announced frame size (up to 16 MiB) before reading it
+	framer.SetMaxReadFrameSize(layer4.MaxMatchingBytes)
 
 	// read the first 10 frames until we get a headers frame (skipping settings, window update & priority frames)
 	var frame http2.Frame
